@@ -201,7 +201,7 @@ inline void deathHook() {
 // Sanitizer runtime defaults (each harness is a single translation unit): make
 // every report fatal via abort() so that the SIGABRT hook can save the case.
 extern "C" __attribute__((used, visibility("default"))) const char* __ubsan_default_options() { return "abort_on_error=1:halt_on_error=1:print_stacktrace=1"; }
-extern "C" __attribute__((used, visibility("default"))) const char* __asan_default_options() { return "abort_on_error=1:detect_leaks=0:allocator_may_return_null=1"; }
+extern "C" __attribute__((used, visibility("default"))) const char* __asan_default_options() { return "abort_on_error=1:detect_leaks=0:allocator_may_return_null=1:malloc_context_size=3"; }
 extern "C" __attribute__((used, visibility("default"))) const char* __tsan_default_options() { return "halt_on_error=1:abort_on_error=1:second_deadlock_stack=1"; }
 namespace vh {
 extern "C" void __sanitizer_set_death_callback(void (*)(void)) __attribute__((weak));
